@@ -275,10 +275,15 @@ ANCHORS = [
     {"op": "index_offset", "geom": "uneven", "dtype": "float64", "fuse": False, "compressor": "none"},
     {"op": "diamond", "geom": "square", "dtype": "float32", "fuse": True, "compressor": "none"},
     {"op": "sum_keepdims_fused", "geom": "square", "dtype": "float64", "fuse": True, "compressor": "none"},
-    {"op": "sum_axis0", "geom": "skinny", "dtype": "int32", "fuse": False, "compressor": "none"},
     {"op": "rechunk_transposed", "geom": "square", "dtype": "float64", "fuse": False, "compressor": "none"},
-    {"op": "mean_axis0", "geom": "uneven", "dtype": "float32", "fuse": True, "compressor": "default"},
-    {"op": "unstack_multi_block", "geom": "square", "dtype": "float64", "fuse": False, "compressor": "none"},
+    # one fixed witness per listed finding (KNOWN_FINDINGS.txt), run first in both tiers
+    {"op": "unstack_multi_block", "geom": "square", "dtype": "float64", "fuse": False, "compressor": "none"},   # unstack-loads-k-blocks
+    {"op": "isnan", "geom": "square", "dtype": "float64", "fuse": False, "compressor": "default"},              # compressed-chunk-extra-buffer
+    {"op": "argmax_axis0", "geom": "square", "dtype": "float64", "fuse": True, "compressor": "none"},           # fused-stream-successor
+    {"op": "var_axis1", "geom": "square", "dtype": "float32", "fuse": False, "compressor": "none"},             # var-float64-temporaries
+    {"op": "isin", "geom": "square", "dtype": "uint8", "fuse": False, "compressor": "none", "data": "smooth"},  # isin-kernel-temporaries
+    {"op": "index_step", "geom": "square", "dtype": "float64", "fuse": False, "compressor": "none"},            # index-stream-keeps-previous-block
+    {"op": "map_overlap", "geom": "skinny", "dtype": "float32", "fuse": False, "compressor": "none"},           # map-overlap-halo-unaccounted
 ]
 
 
@@ -292,7 +297,7 @@ def sample_cases(ctx, n):
     rng.shuffle(ops)
     cases = []
     for a in ANCHORS:
-        cases.append(dict(a, chunk_bytes=CHUNK, input="zarr", data="random", seed=ctx.seed))
+        cases.append(dict({"chunk_bytes": CHUNK, "input": "zarr", "data": "random", "seed": 0}, **a))   # fixed: same for every seed
     i = 0
     while len(cases) < n:
         opn = ops[i % len(ops)]
@@ -437,7 +442,7 @@ def measure(ctx, cases):
 
 
 def oracle(ctx):
-    n = ctx.budget(24, 150)
+    n = ctx.budget(26, 150)
     cases = sample_cases(ctx, n)
     cases.append(witness_unstack())
     t0 = ctx.elapsed()
